@@ -101,6 +101,14 @@ def with_extras(data, model, folder_of, extras, work):
     return bio.getvalue(), model, folder_of
 
 
+class LenRecorder(Recorder):
+    """a recorder that has a length (the events seen so far): a perfectly good callback that is falsy when extraction starts"""
+
+    def __len__(self):
+        with self.lock:
+            return len(self.log)
+
+
 class C18(Check):
     property_id = "C18"
     level = "exploration"
@@ -131,6 +139,7 @@ class C18(Check):
                                       "handler": st.sampled_from(["instant", "slow", "block", "block"]), "block_at": st.integers(0, 12),
                                       "chunk": st.sampled_from([48, 100, 200, None]), "sched": st.lists(st.integers(0, 3), max_size=30),
                                       "prior": st.sampled_from([None, None, None, "cb", "nocb"]), "mp": st.sampled_from([False, False, False, True]),
+                                      "falsy": st.sampled_from([False, False, True]),
                                       "extras": st.one_of(st.just([]), st.lists(st.sampled_from(["link", "linkdir", "empty", "dir"]), max_size=4, unique=True))})
 
     def examples(self, env):
@@ -148,7 +157,7 @@ class C18(Check):
                         if env.mine(i):
                             yield {"arch": sp, "targets": targets, "out": out, "open": "path" if i % 3 else "stream", "handler": handler, "block_at": i % 7,
                                    "chunk": 64, "sched": [i % 3, 1, 0, 2, 1], "extras": [[], ["link", "empty"], ["linkdir", "dir", "link"], ["empty", "dir"]][i % 4],
-                                   "prior": [None, "cb", None, "nocb", None][i % 5], "mp": i % 7 == 3}
+                                   "prior": [None, "cb", None, "nocb", None][i % 5], "mp": i % 7 == 3, "falsy": i % 4 == 1}
 
     def execute(self, case, env):
         out = Outcome()
@@ -184,7 +193,10 @@ class C18(Check):
         if case.get("mp") and case["open"] == "path":
             sig["mp"] = True
             out.label("mp")
-        cb = Recorder(block_at=case["block_at"] if case["handler"] == "block" else None, slow=0.001 if case["handler"] == "slow" else 0.0)
+        cb = (LenRecorder if case.get("falsy") else Recorder)(block_at=case["block_at"] if case["handler"] == "block" else None,
+                                                               slow=0.001 if case["handler"] == "slow" else 0.0)
+        if case.get("falsy"):
+            out.label("callback:falsy")
         import py7zr.py7zr as pp
 
         sched = None
